@@ -1250,6 +1250,28 @@ func checkWorkerCountBounded(c *Ctx, rule string) {
 			at := z.term(arg)
 			goals := []lin{leq(linConst(1), at, 0), leq(at, *maxTerm, 0)}
 			ok2, failed := z.prove(in, goals)
+			if ph, isPhi := arg.(*ssa.Phi); !ok2 && isPhi {
+				// the count joins "no concurrency" constants (excluded by the test that leads here) with a value that was
+				// converted on its own edge: the same principle, edge by edge, at the end of the edge's block
+				all, any := true, false
+				for i, e := range ph.Edges {
+					pred := ph.Block().Preds[i]
+					if z.edgeExcluded(ph, i, in) || staticallyDeadEdge(pred, ph.Block()) {
+						continue
+					}
+					any = true
+					if cv, ok := e.(*ssa.Convert); ok {
+						e = cv.X
+					}
+					et := z.term(e)
+					last := pred.Instrs[len(pred.Instrs)-1]
+					if okE, f := z.prove(last, []lin{leq(linConst(1), et, 0), leq(et, *maxTerm, 0)}); !okE {
+						all, failed = false, f
+						break
+					}
+				}
+				ok2 = all && any
+			}
 			if !ok2 && os.Getenv("ZDEBUG") != "" && strings.Contains(key, os.Getenv("ZDEBUG")) {
 				fmt.Printf("ZDEBUG %s goal %s\n", key, failed)
 				for _, f := range z.factsAt(in) {
